@@ -43,11 +43,16 @@ def part_a(ctx):
     impl_terms, ref_terms, ref_meta, trees = [], [], [], []
     impl_meta = []
     bad = []
-    for i in range(nprog):
-        scope = ctx.rng.choice(['func'] * 8 + ['module'] * 2)
-        g = pygen.Gen(ctx.rng, allow_return=(scope == 'func'), exits=True, max_stmts=ctx.rng.choice([8, 12]),
-                      names=ctx.rng.choice([None, None, pygen.POOL[:2], pygen.POOL[:3]]))   # few names: more kills
-        body = g.program()
+    corpus = rc.corpus_x()      # boundary programs with loop exits, run first
+    for k in range(-len(corpus), nprog):
+        i = k + len(corpus)         # index into trees
+        scope = ctx.rng.choice(['func'] * 8 + ['module'] * 2) if k >= 0 else 'func'
+        if k < 0:
+            body = corpus[k]
+        else:
+            g = pygen.Gen(ctx.rng, allow_return=(scope == 'func'), exits=True, max_stmts=ctx.rng.choice([8, 12]),
+                          names=ctx.rng.choice([None, None, pygen.POOL[:2], pygen.POOL[:3]]))   # few names: more kills
+            body = g.program()
         trees.append((body, scope))
         try:
             src, reads, binds, obs = rc.analyse_program(ctx, body, scope)
